@@ -27,6 +27,9 @@ def run(args, rep):
     for k, c in enumerate(cases):
         for on, o in optsets:
             jobs.append({'id': 'h%d|%s' % (k, on), 'uses': c['uses'], 'lit': c['lit'], 'opts': o, 'home': c['home']})
+            if c['lit'] in hoistgen.SPELL['folded']:
+                # the same case with every occurrence spelled as an expression that constant folding turns into the literal
+                jobs.append({'id': 'h%d|%s+folded' % (k, on), 'uses': c['uses'], 'lit': c['lit'], 'opts': o, 'home': c['home'], 'spell': 'folded'})
     obs = local.pmap(hoistgen.observe, jobs, chunksize=16)
     rep.evaluations += len(obs)
     keep = {}
@@ -69,7 +72,7 @@ def run(args, rep):
         if v[0].startswith('machinery:'):
             raise MachineryError('%s on %s: %s' % (v[0], rid, keep[rid].get('msg')))
         o = keep[rid]
-        shape = 'uses=%s lit=%s opts=%s' % (o['uses'], o['lit'], rid.split('|')[1])
+        shape = 'uses=%s lit=%s opts=%s' % (o['uses'], o['lit'], rid.split('|')[1])      # opts carries the spelling (+folded)
         rep.violation(key=('D18:' if rid in d18 else '') + shape + '|' + v[0], clause=v[0],
                       what='%s replaced=%s aliases=%s\n--- output:\n%s' % (shape, o['replaced'], o['aliases'], o.get('_out')),
                       replay={'kind': 'minify', 'version': '3.12', 'src_b64': inputs.b64(o['_src'].encode()), 'opts': dict(remove_annotations=False)})
@@ -77,7 +80,7 @@ def run(args, rep):
         rep.sample({'uses': o['uses'], 'literal': o['lit'], 'replaced_places': o['replaced'], 'aliases': o['aliases']})
     rep.exhaustive = True
     rep.rule = ('cases = non-empty sets of at most %d of the 18 places x {str, bytes, None, True} exported by TLC (%d), each minified under defaults, rename_globals and '
-                'rename_locals off; non-trivial = distinct cases in which at least one place was replaced by a name' % (3 if args.tier == 'quick' else 4, total))
+                'rename_locals off, the True cases also with every occurrence spelled `True&True` (folded to a new node first); non-trivial = distinct cases in which at least one place was replaced by a name' % (3 if args.tier == 'quick' else 4, total))
     rep.extra.update({'cases_enumerated_by_tlc': total, 'placement_differs_from_model': drift, 'pep709_cases': len(d18),
                       'checker_cmd': 'tlc Hoist.tla (%s); tlc Trace_Hoist.tla over ndjson observations' % cfg})
     rep.assumptions += ['places are found in the output by structure (the skeleton is fixed); alias assignments are the constant assignments in the head of a module / function body',
